@@ -21,7 +21,6 @@ simk::define_interposers!();
 static ALLOC: slog::CountingAlloc = slog::CountingAlloc;
 
 use simk::rk::*;
-const TMPD: &str = "/verif/work/sp";
 
 fn unhex(s: &str) -> Vec<u8> {
     (0..s.len() / 2).map(|i| u8::from_str_radix(&s[2 * i..2 * i + 2], 16).unwrap()).collect()
@@ -38,7 +37,7 @@ struct Files {
 }
 impl Files {
     fn path(name: &str) -> String {
-        format!("{}/f_{}", TMPD, name)
+        format!("{}/f_{}", tmpd(), name)
     }
     fn fresh(&mut self, name: &str, write: bool) -> File {
         let p = Files::path(name);
@@ -200,7 +199,7 @@ fn one_spawn(v: &Value, files: &mut Files, out: &mut Vec<String>, idx: usize) {
                 "pfd":[-1,-1,-1],"pid_known":false,"forked":forked,"msg":e.to_string()}).to_string());
             // a child that reported although create failed?
             for cp in &child_pids {
-                let p = format!("{}/{}.json", VR, cp);
+                let p = format!("{}/{}.json", vr(), cp);
                 if std::path::Path::new(&p).exists() {
                     let _ = fs::remove_file(&p);
                     out.push(json!({"e":"stray_report","pid":cp}).to_string());
@@ -227,8 +226,7 @@ fn run_one(v: &Value, out: &mut Vec<String>) {
 }
 
 fn run_one_inner(v: &Value, out: &mut Vec<String>) {
-    let _ = fs::create_dir_all(TMPD);
-    let _ = fs::create_dir_all(VR);
+    let _ = fs::create_dir_all(tmpd());
     let mut files = Files { masters: Default::default(), next_off: 0, opened: vec![], cur_stream: 0 };
     out.push(json!({"e":"reset","id":v["id"],"kind":"spawn","cfg":{
         "stdin":v["stdin"].as_str().unwrap_or("none").split(':').next().unwrap(),
@@ -322,7 +320,7 @@ fn run_one_inner(v: &Value, out: &mut Vec<String>) {
         p.stderr.take();
         let _ = p.wait();
         if let Some(pid) = p.pid() {
-            let _ = fs::remove_file(format!("{}/{}.json", VR, pid));
+            let _ = fs::remove_file(format!("{}/{}.json", vr(), pid));
         }
     }
     if sigpipe_dfl {
@@ -344,8 +342,7 @@ fn main() {
     let args: Vec<String> = std::env::args().collect();
     slog::init();
     slog::install();
-    let _ = fs::remove_dir_all(VR);
-    let _ = fs::create_dir_all(VR);
+    begin_run();
     let mut outf = std::io::BufWriter::new(File::create(&args[2]).unwrap());
     let mut n = 0;
     for line in BufReader::new(File::open(&args[1]).unwrap()).lines() {
@@ -363,6 +360,7 @@ fn main() {
         }
     }
     outf.flush().unwrap();
+    end_run();
     let summary = format!("spawn_replay: {} scenarios, interposed calls seen: {}", n, simk::hooks::SEEN.load(std::sync::atomic::Ordering::Relaxed));
     // (stderr may have been closed by the code under test: the summary also goes to a side file)
     let _ = fs::write(format!("{}.summary", &args[2]), &summary);
